@@ -25,6 +25,7 @@ type Body struct {
 	Control bool // expected to conflict (not part of the claimed set)
 	Run     func(e *Env) string
 	Env     *Env
+	Want    string // when set: what the body returns by the documented behaviour of the calls it makes, written out by hand
 }
 
 func Dump(x interface{}) string { return astx.Dump(astx.Full, x) }
@@ -133,8 +134,13 @@ func Bodies() []*Body {
 	add("Quote/IdentNeedsQuotes", false, func(*Env) string {
 		// the segments are one long-lived slice that every caller spreads into the call (a server's configured default
 		// database and retention policy): quoting reads it
-		return influxql.QuoteString("it's\n\\") + influxql.QuoteIdent("my db", "", "select") + influxql.QuoteIdent(sharedSegments...) + fmt.Sprint(influxql.IdentNeedsQuotes("select"), influxql.IdentNeedsQuotes("ok_1"))
+		return influxql.QuoteString("it's\n\\") + influxql.QuoteIdent("my db", "", "select") + influxql.QuoteIdent(sharedSegments...) + fmt.Sprint(influxql.IdentNeedsQuotes("select"), influxql.IdentNeedsQuotes("ok_1")) +
+			// names that differ only by a character whose lower-case form is an ASCII letter (Kelvin sign, dotted capital I)
+			influxql.QuoteIdent("\u212ad", "kd", "\u0130d", "id") + fmt.Sprint(influxql.IdentNeedsQuotes("\u212ad"), influxql.IdentNeedsQuotes("kd"))
 	})
+	// "Made alone" also means: not after other calls in the same process. The solo run of a body comes after many other
+	// runs, so its result is compared with this text as well.
+	out[len(out)-1].Want = `'it\'s\n\\'"my db".."select""my db"."auto\"gen"."cpu load"true false` + "\"\u212ad\".\"kd\".\"\u0130d\".idtrue false"
 	add("Format/ParseDuration", false, func(*Env) string {
 		d, err := influxql.ParseDuration("1h30m")
 		_, err2 := influxql.ParseDuration("5124096h")
